@@ -32,7 +32,7 @@ CLAIMED = {
          "6/C06"),
  "C12": ("exploration",
          "deterministic simulation in a -race build: seam-gated pipeline with free-running internals, plus N ungated concurrent callers; oracle = Go race detector + solo-result equality",
-         "The same simulator built with the race detector. Part 1: multi-chunk inputs with many syntax errors spread over many small reads (and valid / early-failing inputs) through the real ParseFile goroutines; only the seams are gated, so lexer and parser run free inside each quiescence window and the detector sees the library's true happens-before relation (a scheduler that serialised everything would hide every race). Part 2: 2-4 callers released from one barrier, never gated against each other, each running a seeded list of Parse/Interpret/ParseFile/Execute and Dump of one shared Prog (with a lock-free per-goroutine output writer)/LoadProg/Unmarshal/Bind of a shared binding; each result must equal the same call made alone. A report counts iff it has a frame in package bcl.",
+         "The same simulator built with the race detector. Part 1: multi-chunk inputs with many syntax errors spread over many small reads (and valid / early-failing inputs) through the real ParseFile goroutines; only the seams are gated, so lexer and parser run free inside each quiescence window and the detector sees the library's true happens-before relation (a scheduler that serialised everything would hide every race). Part 2: 2-4 callers released from one barrier, never gated against each other, each running a seeded list of Parse/Interpret/ParseFile/Execute and Dump of one shared Prog (with a lock-free per-goroutine output writer)/LoadProg/Unmarshal/Bind of a shared binding; each result must equal the same call made alone; the shared Prog is also executed with OptTrace/OptStats. The first use of the library in every worker process is concurrent (cold start), so lazily initialised package state is raced on if it can be. A report counts iff it has a frame in package bcl.",
          "The race detector has no false positives; it can miss a race whose two accesses are never both executed in one run. Replay reproduces the workload exactly and the report with high probability.",
          "6/C12"),
 
@@ -43,7 +43,7 @@ CLAIMED = {
          "6/C16"),
  "C19": ("exploration",
          "deterministic simulation with knob enumeration: all 8 settings of OptDisasm/OptTrace/OptStats on every run, in memory and through the simulated file pipeline",
-         "Every scenario (accepted, rejected, failing at run time) is executed under all 8 combinations of the three observer options, in memory and through InterpretFile in a synctest bubble under the same seeded schedule. Blocks, binding, error, log must be identical across the 8 and nothing may panic; the program's printed lines must equal the output with the four extra line formats removed; the listing must equal the independent decoder's instruction list (offsets and mnemonics); the trace must have exactly xstats.opsRead instruction lines that follow the decoder's successor relation (next instruction or jump target).",
+         "Every scenario (accepted, rejected, failing at run time) is executed under all 8 combinations of the three observer options, in memory and through InterpretFile in a synctest bubble under the same seeded schedule. Blocks, binding, error, log must be identical across the 8 and nothing may panic; the program's printed lines must equal the output with the four extra line formats removed; the listing must equal the independent decoder's instruction list (offsets and mnemonics); the trace must have exactly xstats.opsRead instruction lines that follow the decoder's successor relation (next instruction or jump target). Execute is given writers of its own (program output must stay on the Prog's writer); a failing output writer (fault injection on the output seam) must not change the result under any setting; workload includes 236-330 locals, strings up to 4097 bytes and runs of more than 65536 instructions.",
          "Workload prints only values without line breaks so that the extra line formats can be told apart from program output.",
          "6/C19"),
 
@@ -64,7 +64,7 @@ CLAIMED = {
          "6/C09"),
  "C13": ("fault_enumeration",
          "crash-point enumeration: torn write at every byte of the dump on a simulated disk, surviving prefix re-loaded under three deliveries; full magic and version sweeps",
-         "For every program of a seeded set, EVERY cut point 0..len-1 of its dump is enumerated (the real Dump writes to a simulated disk that fails at byte k and keeps exactly k bytes), and the prefix is given to the real LoadProg all at once, one byte per read, and under a seeded partition with zero-byte reads and data+EOF; all 65535 wrong magics and all 65534 unsupported (major, minor) pairs are enumerated on valid bodies. Oracle: non-nil error, no panic; a CPU loop is caught by the parent's wall-clock supervisor. Exhaustive per program, sampled over programs.",
+         "For every program of a seeded set, EVERY cut point 0..len-1 of its dump is enumerated (the real Dump writes to a simulated disk that fails at byte k and keeps exactly k bytes), and the prefix is given to the real LoadProg all at once, one byte per read, and under a seeded partition with zero-byte reads and data+EOF; all 65535 wrong magics and all 65534 unsupported (major, minor) pairs are enumerated on valid bodies. Oracle: non-nil error, no panic; one delivery per cut passes OptDisasm; sources with more than 4096 (thorough: 65536) lines give sections larger than any preallocation cap; a CPU loop inside one LoadProg call is caught by the parent's supervisor (journal heartbeat). Exhaustive per program, sampled over programs.",
          "Programs are sampled; dumps up to about 12 KiB.",
          "6/C13"),
  "C14": ("other",
